@@ -7,6 +7,7 @@ class Fragments:
         self.fragments = {}
         self.begin_of_fragments = []
         self.current_offset = 0
+        self.end_offset = 0
         self.fill = fill
 
     def append(self, string):
@@ -23,8 +24,16 @@ class Fragments:
         #if position in self.fragments:
         #   raise Exception("Collision detected at %08x" % position)
 
-        i = bisect_right(self.begin_of_fragments, position) - 1
         L = len(string)
+        if L == 0:
+            # An empty string occupies no byte so it cannot collide with
+            # anything (nor make a later insert to collide with it): it only
+            # moves the cursor and extends the final length up to there.
+            self.current_offset = position
+            self.end_offset = max(self.end_offset, position)
+            return
+
+        i = bisect_right(self.begin_of_fragments, position) - 1
         if self.fragments:
             b1 = self.begin_of_fragments[i]
             e1 = b1 + len(self.fragments[b1])
@@ -49,6 +58,7 @@ class Fragments:
 
         self.fragments[position] = string
         self.current_offset = position + L
+        self.end_offset = max(self.end_offset, position + L)
 
     def tobytes(self):
         begin = 0
@@ -58,6 +68,7 @@ class Fragments:
             result.append(s)
             begin = offset + len(s)
 
+        result.append(self.fill * (self.end_offset - begin))
         return b''.join(result)
 
     def __repr__(self):
@@ -104,7 +115,8 @@ class FragmentsOfRegexps(Fragments):
 
         Fragments.insert(self, position, string)
 
-        self.regexp_by_position[position] = regexp
+        if string:
+            self.regexp_by_position[position] = regexp
 
     def assemble_regexp(self):
         begin = 0
